@@ -129,6 +129,7 @@ type Scenario struct {
 	Scripts  []*gen.Program
 	Contract string
 	Txs      []*gen.Program
+	Twin     bool // the contract is also deployed (same name) to account 0x2
 }
 
 func newScenario(r *gen.R, nscripts int) *Scenario {
@@ -154,6 +155,16 @@ func newScenario(r *gen.R, nscripts int) *Scenario {
 		// destroys stored resources without importing the declaring contract
 		s.Txs = append(s.Txs, gen.SweeperTx(r))
 	}
+	if r.IntN(3) == 0 {
+		// the same contract under the same name on a second account; resources of both
+		// locations are stored side by side and swept in one transaction
+		s.Twin = true
+		tw := gen.TwinTx(r)
+		sw := gen.SweeperTx(r)
+		at := len(s.Txs) / 2
+		s.Txs = append(s.Txs[:at], append([]*gen.Program{tw}, s.Txs[at:]...)...)
+		s.Txs = append(s.Txs, sw)
+	}
 	return s
 }
 
@@ -167,6 +178,9 @@ func (s *Scenario) runHistory(eng host.Engine, opts func(step int) *host.Options
 		opt = opts(0)
 	}
 	tx := fmt.Sprintf(`transaction { prepare(signer: auth(Contracts) &Account) { signer.contracts.add(name: "C0", code: "%x".decodeHex()) } }`, s.Contract)
+	if s.Twin {
+		h.RunTx(eng, tx, nil, []common.Address{host.Addr(2)}, nil)
+	}
 	h.ResetTrace()
 	d := h.RunTx(eng, tx, nil, []common.Address{host.Addr(1)}, opt)
 	if visit != nil {
